@@ -209,14 +209,20 @@ def vfile_deps(vfile, seen=None):
         return seen
     seen.add(vfile)
     src = strip_comments(open(vfile).read())
-    for m in re.finditer(r"From\s+OV\s+Require\s+(?:Import\s+|Export\s+)?((?:[A-Za-z_][\w']*(?:\.[A-Za-z_][\w']*)*\s*)+)\.", src):
-        for mod in m.group(1).split():
-            p = os.path.join(COQDIR, mod.replace(".", "/") + ".v")
-            vfile_deps(p, seen)
-    for m in re.finditer(r"Require\s+(?:Import\s+|Export\s+)?((?:OV\.[\w'.]+\s*)+)\.", src):
-        for mod in m.group(1).split():
-            p = os.path.join(COQDIR, mod[3:].replace(".", "/") + ".v")
-            vfile_deps(p, seen)
+    # sentences end with a '.' followed by whitespace / end of file; module names contain dots themselves
+    for m in re.finditer(r"(?:From\s+OV\s+)?Require\s+(?:Import\s+|Export\s+)?", src):
+        from_ov = m.group(0).lstrip().startswith("From")
+        end = re.compile(r"\.(?=\s|$)").search(src, m.end())
+        if not end:
+            continue
+        for mod in src[m.end():end.start()].split():
+            if from_ov:
+                rel = mod
+            elif mod.startswith("OV."):
+                rel = mod[3:]
+            else:
+                continue
+            vfile_deps(os.path.join(COQDIR, rel.replace(".", "/") + ".v"), seen)
     return seen
 
 def failing_statement(make_output):
@@ -261,30 +267,32 @@ def proof_step(pid, tier="quick"):
         if m:
             audit_ok = False
             res["errors"].append("forbidden construct %r in %s" % (m.group(0), os.path.relpath(d, COQDIR)))
-    # re-run the (small) property file to capture its Print Assumptions output
-    tdir = os.path.join(CACHE, "props_%s_%d" % (pid, os.getpid()))
-    os.makedirs(tdir, exist_ok=True)
-    rc, out = sh("timeout 600 coqc -noglob -Q . OV -w -notation-overridden Props/%s.v -o %s/%s.vo 2>&1" % (pid, tdir, pid), cwd=COQDIR, timeout=630)
-    shutil.rmtree(tdir, ignore_errors=True)
-    if rc != 0:
-        res["errors"].append("coqc Props/%s.v failed:\n%s" % (pid, out[-3000:]))
-        return res
-    # split the output into one block per Print Assumptions, in order
-    blocks = re.split(r"(?m)^(?=Closed under the global context|Axioms:)", out)
-    blocks = [b for b in blocks if b.startswith("Closed under") or b.startswith("Axioms:")]
+    # ask Coq for the assumptions of every property theorem, one marked block per theorem (a separate tiny file that
+    # Requires the compiled property file, so Check/Example output of the property file cannot be confused with axioms)
     n_print = len(re.findall(r"Print\s+Assumptions\s+([A-Za-z0-9_']+)", src))
-    printed = re.findall(r"Print\s+Assumptions\s+([A-Za-z0-9_']+)", src)
     if n_print < len(names):
         res["errors"].append("Props/%s.v: %d theorems but %d Print Assumptions" % (pid, len(names), n_print))
-    if len(blocks) != n_print:
-        res["errors"].append("could not match Print Assumptions output (%d blocks, %d commands)" % (len(blocks), n_print))
+    tdir = os.path.join(CACHE, "props_%s_%d" % (pid, os.getpid()))
+    os.makedirs(tdir, exist_ok=True)
+    q = os.path.join(tdir, "Assum_%s.v" % pid)
+    with open(q, "w") as f:
+        f.write("From Coq Require Import String.\nFrom OV Require Import Props.%s.\n" % pid)
+        for nm in names:
+            f.write('Eval compute in "MARK:%s"%%string.\nPrint Assumptions %s.\n' % (nm, nm))
+    rc, out = sh("timeout 900 coqc -noglob -Q . OV -w -notation-overridden %s 2>&1" % q, cwd=COQDIR, timeout=930)
+    shutil.rmtree(tdir, ignore_errors=True)
+    if rc != 0:
+        res["errors"].append("assumption query for Props/%s.v failed:\n%s" % (pid, out[-3000:]))
+        return res
     amap = {}
-    for nm, b in zip(printed, blocks):
-        if b.startswith("Closed under"):
+    parts = re.split(r'=\s*"MARK:([A-Za-z0-9_\']+)"%string\s*\n\s*:\s*string', out)
+    for k in range(1, len(parts) - 1, 2):
+        nm, blk = parts[k], parts[k + 1]
+        if "Closed under the global context" in blk:
             amap[nm] = []
-        else:
-            ax = re.findall(r"^([A-Za-z_][A-Za-z0-9_.']*)\s*:", b, re.M)
-            amap[nm] = [a for a in ax if a != "Axioms"]
+        elif "Axioms:" in blk:
+            body = blk.split("Axioms:", 1)[1]
+            amap[nm] = re.findall(r"(?m)^([A-Za-z_][A-Za-z0-9_.']*)\s*(?::|$)", body)
     for nm in names:
         if nm not in amap:
             res["theorems"].append((nm, None, False))
@@ -374,6 +382,7 @@ def run_coq(terms, tag, imports, shard=250, timeout=900):
     d = os.path.join(CACHE, "cases", "%s_%d" % (tag, os.getpid()))
     shutil.rmtree(d, ignore_errors=True)
     os.makedirs(d)
+    shard = min(shard, max(20, -(-len(terms) // NPROC)))      # balance the shards over the cores
     shards = [terms[i:i+shard] for i in range(0, len(terms), shard)]
     def one(k):
         path = os.path.join(d, "cases_%d.v" % k)
